@@ -381,10 +381,49 @@ fn emit_scripted_repetitions(prop: &str, sink: &mut Sink) {
         }
 }
 
+/// Scripted games in which a ROOK or QUEEN makes the king's castling step (e1-g1, e1-c1, e8-g8, e8-c8), a king
+/// makes it without the right, and real castlings - printed, replayed from the printed list and walked.
+fn emit_scripted_kinglike(prop: &str, rng: &mut StdRng, sink: &mut Sink) {
+    let games: [(&str, &[&str]); 6] = [
+        ("4r1k1/5ppp/8/8/8/8/5PPP/4R1K1 w - - 0 31", &["e1c1", "e8c8", "c1e1", "c8e8", "e1g1", "e8g8"]),
+        ("3k4/8/8/8/8/8/7K/4Q3 w - - 0 50", &["e1g1", "d8d7", "g1c1", "d7e8", "c1e1", "e8d8", "e1c1"]),
+        ("4q3/7k/8/8/8/8/8/3K4 b - - 3 9", &["e8g8", "d1d2", "g8c8", "d2e1", "c8e8"]),
+        ("r3k2r/8/8/8/8/8/8/R3K2R w KQkq - 0 1", &["e1g1", "e8c8", "f1e1", "d8e8", "e1c1", "e8g8"]),
+        ("r3k2r/8/8/8/8/8/8/R3K2R w - - 0 1", &["e1f1", "e8d8", "f1e1", "d8e8", "e1g1"]),
+        ("rnbqkbnr/pppppppp/8/8/8/8/PPPPPPPP/RNBQKBNR w KQkq - 0 1",
+         &["e2e4", "e7e5", "g1f3", "b8c6", "f1c4", "f8c5", "e1g1", "g8f6", "f1e1", "e8g8", "d2d3", "d7d6", "g1h1", "g8h8", "e1g1", "f8e8", "a2a3", "e8g8"]),
+    ];
+    for (fen, moves) in games.iter() {
+        let b = owlchess::Board::from_fen(fen).unwrap();
+        let mut c: Option<chain::Chain> = None;
+        sink.begin(&json!({"prop": prop, "scripted": fen}));
+        let mut evs = vec![chain::exec(&mut c, &json!({"op": "new", "pos": proj::raw_json(b.raw())}))];
+        for (i, t) in moves.iter().enumerate() {
+            evs.push(chain::exec(&mut c, &json!({"op": "push", "like": {"t": (if i % 2 == 0 { "uci" } else { "ucimove" }), "text": proj::text_json(t)}})));
+            evs.push(chain::exec(&mut c, &json!({"op": "text", "variants": chain::text_variants(rng, true)})));
+        }
+        evs.push(chain::exec(&mut c, &json!({"op": "walk", "steps": ["next", "next", "prev", "end", "prev", "prev", "start", "next"]})));
+        evs.push(chain::exec(&mut c, &json!({"op": "eq"})));
+        for _ in 0..3 {
+            evs.push(chain::exec(&mut c, &json!({"op": "pop"})));
+        }
+        evs.push(chain::exec(&mut c, &json!({"op": "text", "variants": chain::text_variants(rng, true)})));
+        if sink.room() < evs.len() {
+            sink.rotate();
+        }
+        for e in evs {
+            sink.emit(&e);
+        }
+    }
+}
+
 fn gen_chain(prop: &str, n: usize, rng: &mut StdRng, sink: &mut Sink) {
     use rand::seq::SliceRandom;
     use rand::Rng;
     let ctx = query::Ctx::new();
+    if prop == "C17" || prop == "C13" {
+        emit_scripted_kinglike(prop, rng, sink);
+    }
     if prop == "C14" {
         emit_scripted_repetitions(prop, sink);
     }
@@ -601,6 +640,19 @@ fn gen_notation(prop: &str, n: usize, rng: &mut StdRng, sink: &mut Sink) {
                     strings.push(format!("{head}{}7", "0".repeat(n - head.len() - 1)));
                 }
             }
+            // the vocabulary of game scores around SAN: annotation and result tokens, alone and glued to valid texts
+            let tokens = ["e.p.", "ep", "e.p", "!", "?", "!!", "??", "!?", "?!", "+-", "-+", "=", "1-0", "0-1", "1/2-1/2", "*", "1.", "1...",
+                          "...", "..", "$1", "(", ")", "{", "}", "[", "]", "mate", "ch", "dbl", "++", "#", "+", "x", ":", "=Q", "(Q)", "/Q", "Z0", "--", "@"];
+            for t in tokens {
+                strings.push(t.to_string());
+                strings.push(format!(" {t}"));
+                strings.push(format!("{t}+"));
+                for base in ["e4", "exd6", "Nf3", "O-O", "e8=Q", "e2e4", "Qh4xe1"] {
+                    strings.push(format!("{base}{t}"));
+                    strings.push(format!("{base} {t}"));
+                    strings.push(format!("{t}{base}"));
+                }
+            }
             // long and random-unicode strings
             strings.push("e2e4 ".repeat(400));
             strings.push("é".repeat(1000));
@@ -700,6 +752,8 @@ fn gen_misc(prop: &str, n: usize, rng: &mut StdRng, sink: &mut Sink) {
             }
         }
         "C19" => {
+            sink.begin(&json!({"prop": prop, "what": "Move::new over every tuple"}));
+            sink.emit(&misc::wf_sweep_event());
             let pos = posgen::mixed(rng, n);
             for b in pos.iter() {
                 sink.begin(&json!({"prop": prop, "fen": b.as_fen()}));
